@@ -96,6 +96,19 @@ def _simple(e: ast.AST) -> bool:
     return False
 
 
+def _pure(e: ast.AST) -> bool:
+    """no effect and no dependence on evaluation order: names, attributes, constants, operators,
+    literals, and constructor calls of the builtin containers"""
+    for x in ast.walk(e):
+        if isinstance(x, (ast.Await, ast.NamedExpr, ast.Yield, ast.YieldFrom, ast.Lambda)):
+            return False
+        if isinstance(x, ast.Call):
+            if not (isinstance(x.func, ast.Name) and x.func.id in ('frozenset', 'set', 'tuple', 'list', 'dict',
+                                                                   'int', 'str', 'float', 'bool', 'len')):
+                return False
+    return True
+
+
 def _always_returns(block: list[ast.stmt]) -> bool:
     if not block:
         return False
@@ -800,7 +813,7 @@ class Normaliser:
                 if prelude:
                     # substitute side-effect free arguments even when they are used more than once
                     for p in prelude:
-                        if any(isinstance(x, (ast.Call, ast.Await, ast.NamedExpr)) for x in ast.walk(p.value)):
+                        if not _pure(p.value):
                             return node
                         name = p.targets[0].id
                         orig = next((k for k, v in rename.items() if v == name), name)
